@@ -9,6 +9,7 @@ import (
 	"math/big"
 	"math/rand"
 	"os"
+	"runtime/debug"
 	"sort"
 	"strings"
 	"time"
@@ -214,13 +215,26 @@ type Exec struct {
 	halted   bool
 	branches map[string]int // coverage: distinct (op, outcome-class) keys
 	fam      map[string]interface{}
+	notes    []string
+	nested   bool     // a metamorphic re-run: end-of-scenario monitors are off
+	scLines  []string // op lines of the current scenario (after its reset line)
+	scOut    []string // their outputs
 }
+
+func (x *Exec) lastOutputs(n int) []string { return x.scOut }
 
 func (x *Exec) hit(prop, monitor, sig, detail string) {
 	x.hits = append(x.hits, MonHit{prop, monitor, sig, x.scenario, x.lineNo, detail})
 }
 
 func (x *Exec) cover(key string) { x.branches[key]++ }
+
+// diagnostic notes (panic messages etc.), kept in the monitor file, not compared
+func (x *Exec) note(s string) {
+	if len(x.notes) < 200 {
+		x.notes = append(x.notes, fmt.Sprintf("scenario %d line %d: %s", x.scenario, x.lineNo, s))
+	}
+}
 
 type familyExec func(x *Exec, toks []string) string
 
@@ -235,16 +249,20 @@ func (x *Exec) run(lines []string) {
 		var out string
 		switch {
 		case len(toks) == 0 || strings.HasPrefix(toks[0], "#"):
+			x.scLines = append(x.scLines, line)
 			out = "."
 		case toks[0] == "reset":
 			x.ctx = x.env.scenarioCtx()
 			x.fam = map[string]interface{}{}
 			x.halted = false
 			x.scenario++
+			x.scLines, x.scOut = nil, nil
 			out = "."
 		case x.halted:
+			x.scLines = append(x.scLines, line)
 			out = "halted"
 		default:
+			x.scLines = append(x.scLines, line)
 			pfx := toks[0]
 			if k := strings.Index(pfx, "."); k > 0 {
 				pfx = pfx[:k]
@@ -264,6 +282,9 @@ func (x *Exec) run(lines []string) {
 			x.cover(toks[0] + "/" + cls)
 		}
 		fmt.Fprintln(x.out, out)
+		if !(len(toks) > 0 && toks[0] == "reset") {
+			x.scOut = append(x.scOut, out)
+		}
 		if d := time.Since(t0); d > 500*time.Millisecond {
 			fmt.Fprintf(os.Stderr, "slow op (%v) line %d: %s\n", d, x.lineNo, line)
 		}
@@ -275,6 +296,9 @@ func (x *Exec) safe(f familyExec, toks []string) (out string) {
 	defer func() {
 		if r := recover(); r != nil {
 			out = fmt.Sprintf("harness-panic %s", esc(fmt.Sprint(r)))
+			if os.Getenv("VERIF_DEBUG") != "" {
+				fmt.Fprintf(os.Stderr, "harness panic: %v\n%s\n", r, debug.Stack())
+			}
 		}
 	}()
 	return f(x, toks)
